@@ -1,5 +1,6 @@
 import SamVerif.Model.CompileGate
 import SamVerif.Model.MatchLower
+import SamVerif.Model.EnumRepr
 import SamVerif.Model.OptKernel
 import SamVerif.Model.Backends
 import Driver.Util
@@ -7,6 +8,7 @@ import Driver.Util
   gate ENTRY_PRESENT PARSE_ERRS CHECK_ERRS     -> lowered | rejected | invalid-entry
   fold OP a b | merge OUTER INNER c1 c2 | trip G i0 step bound      (as drv-c02)
   str HEX(raw literal inside, UTF-8)           -> rejected | closed | open
+  layout T n <def>*                            -> enum layouts + LIR erasure (see runLayoutLine)
   match T n <def>* Y t A n <pat>* V n <val>*   -> typed=b nodup=b crash=b acc=b ends=a0,fb,ft,…
     <def> ::= P | E cls n (name k type*)* | S n (name type)*
     <pat> ::= t nfields k <pat>* | o nfields k (order <pat>)* | v cls name k <pat>* | i name | w | r k <pat>*
@@ -230,6 +232,37 @@ def runMatchLine (ts : List String) : Option String :=
       | _ => none
   | _ => none
 
+def toTDef : Def → EnumRepr.TDef
+  | .prim => .prim
+  | .struct fs => .struct (fs.map (·.2))
+  | .enum _ vs => .enum (vs.map (·.2))
+
+def showVL : EnumRepr.VL → String
+  | .int31 => "i"
+  | .unboxed _ => "u"
+  | .boxed fs => "b" ++ toString fs.length
+
+/-- `layout T n <def>*` -> `T1=i,u;T2=b1 | probe1=any;probe2=id` (enum layouts and LIR erasure) -/
+def runLayoutLine (ts : List String) : Option String :=
+  match ts with
+  | "T" :: ts =>
+    match pNat ts with
+    | none => none
+    | some (n, ts) =>
+      match pMany pDef n ts with
+      | none => none
+      | some (defs, _) =>
+        let tbl := defs.map toTDef
+        let lay := EnumRepr.layoutTable tbl
+        let ids := (List.range tbl.length).filter (fun t => (lay.getD t none).isSome)
+        let sorted := ids.map (fun t => ("T" ++ toString t, "probe" ++ toString t, EnumRepr.layAt lay t))
+        let byName := sorted.toArray.qsort (fun a b => a.1 < b.1) |>.toList
+        let byProbe := sorted.toArray.qsort (fun a b => a.2.1 < b.2.1) |>.toList
+        let enums := byName.map (fun x => x.1 ++ "=" ++ ",".intercalate (x.2.2.map showVL))
+        let probes := byProbe.map (fun x => x.2.1 ++ "=" ++ (if EnumRepr.needsAny x.2.2 then "any" else "id"))
+        some (";".intercalate enums ++ " | " ++ ";".intercalate probes)
+  | _ => none
+
 def textOfHex (h : String) : Option Backends.Text :=
   match String.fromUTF8? (ByteArray.mk (bytesOfHex h).toArray) with
   | some s => some (s.toList.map Char.toNat)
@@ -255,14 +288,7 @@ def step (_ : Unit) (line : String) : Unit × String :=
         | .nofold => "nofold"
         | .panic => "panic"
       | _, _, _ => "bad-line"
-    | ["merge", o, i, c1, c2] =>
-      match opOf o, opOf i, c1.toInt?, c2.toInt? with
-      | some o, some i, some c1, some c2 =>
-        match Opt.mergeBinary o i c1 c2 with
-        | .merged op c => "m " ++ opName op ++ " " ++ toString c
-        | .none => "none"
-        | .panic => "panic"
-      | _, _, _, _ => "bad-line"
+    | "merge" :: _ => "n/a"      -- C02's model; C03 only checks that the real kernel never aborts
     | ["trip", g, i0, st, b] =>
       match guardOf g, i0.toInt?, st.toInt?, b.toInt? with
       | some g, some i0, some st, some b =>
@@ -279,6 +305,7 @@ def step (_ : Unit) (line : String) : Unit × String :=
           (if (Backends.tsDecode (Backends.content raw)).isSome then "closed" else "open")
         else "rejected"
     | "match" :: ts => (runMatchLine ts).getD "bad-line"
+    | "layout" :: ts => (runLayoutLine ts).getD "bad-line"
     | _ => "bad-op"
   ((), ans)
 
